@@ -188,6 +188,9 @@ Fixpoint go_read_param (T : tables) (fuel : nat) (s : text) (pos cend : nat) : n
 
 (* ---- scanDirBlock (control.go:405) --------------------------------------------------------------- *)
 Inductive scan_res := ScanAt (p : nat) | ScanErr | ScanFuel.
+(* case '-', '0' .. '9', ',', '#', 'v', 'V': a prefix parameter, the scanners remain in their tilde state *)
+Definition is_param_byte (b : ascii) : bool :=
+  is_digit b || ascii_eqb b "-" || ascii_eqb b "," || ascii_eqb b "#" || ascii_eqb b "v" || ascii_eqb b "V".
 Fixpoint go_scan_block (fuel : nat) (buf : text) (pos : nat) (opn cls : ascii) (colonOk : bool)
                        (colon at_ tilde : bool) : scan_res :=
   match fuel with
@@ -199,9 +202,12 @@ Fixpoint go_scan_block (fuel : nat) (buf : text) (pos : nat) (opn cls : ascii) (
       if tilde then
         if ascii_eqb b ":" then go_scan_block f buf pos opn cls colonOk true at_ true
         else if ascii_eqb b "@" then go_scan_block f buf pos opn cls colonOk colon true true
+        else if is_param_byte b then go_scan_block f buf pos opn cls colonOk colon at_ true
+        else if ascii_eqb b "'" then go_scan_block f buf (S pos) opn cls colonOk colon at_ true   (* the character after the quote is skipped *)
         else if ascii_eqb b opn then
           match go_scan_block f buf pos opn cls colonOk false false false with
-          | ScanAt p => go_scan_block f buf (p + 2) opn cls colonOk colon at_ true     (* the flags keep their values *)
+          | ScanAt p => (* pos = p + 2; if buf[pos-1] == ':' { pos++ }; tilde = false *)
+                        go_scan_block f buf (if ascii_eqb (ch_at buf (p + 1)) ":" then p + 3 else p + 2) opn cls colonOk colon at_ false
           | e => e
           end
         else if ascii_eqb b cls then
@@ -229,14 +235,16 @@ Fixpoint go_scan_cond (fuel : nat) (buf : text) (pos start : nat) (strs : list t
       if tilde then
         if ascii_eqb b ":" then go_scan_cond f buf pos start strs true at_ true defNext
         else if ascii_eqb b "@" then go_scan_cond f buf pos start strs colon true true defNext
+        else if is_param_byte b then go_scan_cond f buf pos start strs colon at_ true defNext
+        else if ascii_eqb b "'" then go_scan_cond f buf (S pos) start strs colon at_ true defNext
         else if ascii_eqb b ";" then
           match slice buf start (pos - 2) with
           | None => CondErr
-          | Some s => go_scan_cond f buf pos pos (strs ++ [s]) colon at_ true (if colon then true else defNext)
+          | Some s => go_scan_cond f buf pos pos (strs ++ [s]) colon at_ false (if colon then true else defNext)
           end
         else if ascii_eqb b "[" then
           match go_scan_cond f buf pos pos [] false false false false with
-          | CondAt _ _ p => go_scan_cond f buf (p + 2) start strs colon at_ true defNext
+          | CondAt _ _ p => go_scan_cond f buf (p + 2) start strs colon at_ false defNext
           | e => e
           end
         else if ascii_eqb b "]" then
